@@ -295,7 +295,7 @@ class Binary:
                      '-I', lab.CXX_DIR, '-I', self.tmp]
             tail = ['-pthread']
         cmd = [lab.CXX] + flags + [os.path.join(self.tmp, m) for m in self.mains] + ['-o', self.exe] + tail
-        res = subprocess.run(cmd, capture_output=True, text=True, timeout=900, check=False)
+        res = subprocess.run(cmd, capture_output=True, text=True, timeout=3600, check=False)
         if res.returncode != 0:
             errs = [ln.replace(self.tmp + '/', '') for ln in res.stderr.splitlines() if 'error' in ln or 'undefined' in ln]
             self.error = '\n'.join(errs[:6]) or res.stderr[-600:]
@@ -312,11 +312,16 @@ class Binary:
                 return tuple(json.load(fh))
         e = dict(os.environ)
         e.update(env or {})
-        try:
-            res = subprocess.run([self.exe] + [str(a) for a in args], capture_output=True, text=True, timeout=timeout,
-                                 check=False, env=e)
-        except subprocess.TimeoutExpired:
-            return (-99, [], 'timeout')
+        from .core import run_watched  # pylint: disable=import-outside-toplevel
+        code, stdout, stderr = run_watched([self.exe] + [str(a) for a in args], env=e, stall_seconds=120,
+                                           wall_cap=max(timeout, 7200))
+        if code == 'stalled':
+            return (-99, [], 'stalled: no CPU time consumed for 120 s (all threads blocked)')
+
+        class _Res:  # pylint: disable=too-few-public-methods
+            pass
+        res = _Res()
+        res.returncode, res.stdout, res.stderr = code, stdout, stderr
         lines = []
         for ln in res.stdout.splitlines():
             if ln.startswith('{'):
